@@ -315,7 +315,13 @@ class SshHostKeyECDSABase(SshHostKeyBase):
         else:
             raise NotImplementedError(named_group)
 
-        composer.compose_bytes(self.public_key.params.octet_bit_string, 4)
+        coordinate_size = (named_group.value.size + 7) // 8
+        point_composer = ComposerBinary()
+        point_composer.compose_numeric(4, 1)
+        point_composer.compose_mpint(self.public_key.params.point_x, coordinate_size)
+        point_composer.compose_mpint(self.public_key.params.point_y, coordinate_size)
+
+        composer.compose_bytes(point_composer.composed_bytes, 4)
 
 
 @attr.s
